@@ -70,7 +70,8 @@ def score_generated(d, ctx):
     pa = _pa()
     K = d.int(1, 6)
     lead = tuple(d.int(1, 5) for _ in range(d.choice([0, 1, 1, 2])))
-    kind = d.choice(['int-small', 'int8', 'float-small', 'float-cont', 'constant'])
+    kind = d.choice(['int-small', 'int8', 'float-small', 'float-cont', 'constant',
+                     'float-extreme'])
     shape = (*lead, K, K)
     if kind == 'int-small':
         score = d.small_array(shape, [0, 1, 2]).astype(np.int64)
@@ -81,6 +82,13 @@ def score_generated(d, ctx):
             d.choice([np.float64, np.float32]))
     elif kind == 'constant':
         score = np.full(shape, d.choice([0.0, 1.0, -3.0]))
+    elif kind == 'float-extreme':
+        # "every finite score matrix": the ends of the floating-point range are
+        # finite (log-masks passed through nan_to_num, clipped scores)
+        dt = d.choice([np.float64, np.float32])
+        fi = np.finfo(dt)
+        score = d.small_array(shape, [float(fi.min), float(fi.max), float(fi.min) / 2,
+                                      0.0, 1.0, -1.0, float(fi.tiny)]).astype(dt)
     else:
         score = d.rng().normal(size=shape)
     algo = d.choice(['greedy', 'optimal'])
